@@ -10,7 +10,11 @@
     * `Basic_Player::reference`: one `Option Ref` next to the `PState`.  `step_event` does
       `reference = event.reference` after every fetch; the synthetic `END` of a read past the end
       is built with the *current* `reference`, i.e. it inherits the previous one (`fetchRef`);
-      on the final-pass `LOOP_BREAK` the substituted `LOOP_END` event does not touch `reference`.
+      on the final-pass `LOOP_BREAK` the substituted `LOOP_END` event does not touch `reference`;
+      when an `END` pops a return frame, `reference` becomes that of the calling `JUMP` event
+      (`reference = track->get_event(position - 1).reference`, fix 152f2d8 — before it the
+      reference stayed inside the subroutine, so an error at the end of the calling track pointed
+      at the subroutine's last command: `returnRef`).
     * `Basic_Player::error(msg)` = `InputError(reference, msg)`: every error of the ref-less models
       is paired with the reference at that moment and with its text (`Tables.diag*`, regenerated).
     * the one place where an inner writer's reference is observable: a drum-mode `NOTE` calls
@@ -32,7 +36,7 @@
 
   Narrowings: `%hu` → `uint16_t` (mod 65536); `track_id + 'A'` printed with `%c` (mod 256).
 -/
-import Ctrmml.Model.Mml
+import Ctrmml.Model.MmlFix
 import Ctrmml.Model.MdsConv
 import Ctrmml.Model.Tags
 namespace Ctrmml.Refs
@@ -61,6 +65,16 @@ def fetchRef (rs : RSong) (root : List BEvent) (c : Core) (prev : Option Ref) : 
   match (codeR rs root c.track)[c.position]? with
   | some e => e.ref
   | none => prev
+
+/-- does this `step_event` pop a return frame (`END` with a non-empty stack)? -/
+def isReturn (rs : RSong) (root : List BEvent) (c : Core) : Bool :=
+  !c.stack.isEmpty && (fetch (eraseTrack (codeR rs root c.track)) c.position).kind == .fin
+
+/-- `reference` after a return: the calling `JUMP` event's (`get_event(position - 1)`) -/
+def returnRef (rs : RSong) (root : List BEvent) (c' : Core) (r : Option Ref) : Option Ref :=
+  match (codeR rs root c'.track)[c'.position - 1]? with
+  | some e => e.ref
+  | none => r
 
 /-- a player together with `Basic_Player::reference` -/
 structure RState where
@@ -96,7 +110,8 @@ def stepR (rs : RSong) (root : List BEvent) (loopHook : Bool) (s : RState) :
   let r := fetchRef rs root s.st.core s.ref
   match step rs.erase (eraseTrack root) loopHook s.st with
   | .error e => .error (e, r)
-  | .ok (st', em) => .ok ({ st := st', ref := r }, em)
+  | .ok (st', em) =>
+    .ok ({ st := st', ref := if isReturn rs root s.st.core then returnRef rs root st'.core r else r }, em)
 
 /-- `Track_Validator`: `while(is_enabled()) step_event();` -/
 def runValidatorR (rs : RSong) (root : List BEvent) : Nat → RState → Except (PErr × Option Ref) RState
@@ -187,7 +202,7 @@ def runWriterR (rs : RSong) (d : DataInfo) (root : List BEvent) :
         | .ok _ => .error { err := .player e, ref := r, msg := playerMsg e }
       | none => .error { err := .player e, ref := r, msg := playerMsg e }
     | .ok (st', t) =>
-      let s' : RState := { st := st', ref := r }
+      let s' : RState := { st := st', ref := if isReturn rs root s.st.core then returnRef rs root st'.core r else r }
       match t with
       | none => runWriterR rs d root (fuel + 1) steps c w s'
       | some none =>
@@ -351,7 +366,7 @@ def hasPlatformEvent (rs : RSong) : Bool :=
 
 /-- `MML_Input::open_file` → `Song_Validator` → `MDSDRV_Converter` (the `mds` export) -/
 def runPipeline (file : String) (lines : List (List Nat)) : Outcome :=
-  match Mml.readLines 0 lines Mml.MmlState.init with
+  match MmlFix.readLines 0 lines Mml.MmlState.init with
   | .err (.input msg r) _ => { stage := .parse, what := some (whatOf file (some r) msg), ref := some r, msg := msg }
   | .err (.foreign k) _ => { stage := .parse, what := some (if k.startsWith "ub:" || k.startsWith "MODEL:" then k else "foreign:" ++ k) }
   | .ok _ st =>
@@ -364,12 +379,10 @@ def runPipeline (file : String) (lines : List (List Nat)) : Outcome :=
       | .err msg => { stage := .convert, what := some (whatOf file none msg), msg := msg }
       | .ok d =>
         -- a platform command that exists is translated by `parse_platform_event` (not modelled here)
-        let d := { d with platform := [] }
+        if st.song.tagCalls.any (fun c => c.fn == .addTagList && c.key.take 4 == strBytes "cmd_") then
+          { stage := .convert, what := some "unmodelled:platform-command" } else
         match parseTracksR rs d (channelIds rs) {} [] with
-        | .error x =>
-          if x.err = .platformMissing ∧ st.song.tagCalls.any (fun c => c.fn == .addTagList && c.key.take 4 == strBytes "cmd_") then
-            { stage := .convert, what := some "unmodelled:platform-command" }
-          else { stage := .convert, what := some (whatOf file x.ref x.msg), ref := x.ref, msg := x.msg }
+        | .error x => { stage := .convert, what := some (whatOf file x.ref x.msg), ref := x.ref, msg := x.msg }
         | .ok _ => { stage := .ok, what := none }
 
 end Ctrmml.Refs
